@@ -80,6 +80,9 @@ RegAfter(T, e) ==
   CASE e.op = "new" -> Initial(T)
     [] e.op = "add" -> reg \cup Added(T, e)
     [] e.op = "remove" -> reg \ ByName(T, e.nm)
+    \* settings the name does not carry were changed on the live object, then it was recalculated
+    \* ("ideal for changing an indicator parameters midway"): from here on it is configuration e.idx
+    [] e.op = "reconf" -> (reg \ ByName(T, e.nm)) \cup {e.idx}
     [] OTHER -> reg
 MgsAfter(T, e) ==
   CASE e.op = "new" -> {1} \cup {T.ind[n].mg : n \in Initial(T)}
@@ -106,7 +109,7 @@ MidOf(T, e, j) ==
             IF j \in mgs THEN OkCs(st[j]) ELSE MgrNew(RawCopies(st[T.mg[j].src]), cfg)
        [] e.op = "append" -> MgrAppend(st[j], RawSlice(T, e.a, e.b), cfg)
        [] e.op = "collapse" -> MgrTasks(st[j], cfg)     \* another pass over the same list
-       [] e.op \in {"purge", "recalculate", "remove"} ->
+       [] e.op \in {"purge", "recalculate", "remove", "reconf"} ->
             OkCs(MgrPurge(st[j], NamesOn(T, Targets(T, e), j)))
        [] OTHER -> OkCs(st[j])
 
@@ -238,7 +241,13 @@ TwinFindings(tw, post) ==
       n   == IF tw.mode = "prefix" THEN MaxI(0, Len(a) - tw.skip) ELSE Len(a)
       off == IF tw.mode = "tail" THEN Len(b) - Len(a) ELSE 0
       cl  == tw.clause
-  IN IF (tw.mode = "full" /\ Len(a) # Len(b)) \/ (tw.mode # "full" /\ Len(b) < n + off) \/ off < 0
+  IN IF tw.mode = "align"
+     \*      "align": candles of post and of the twin that carry the same timestamp are the same candles
+     \*      (all but the forming bucket); readings are not compared (under a lifespan they may differ)
+     THEN { <<cl \o "_candle", tw.j, "", i>> :
+              i \in {i \in 1..MaxI(0, Len(a) - tw.skip) :
+                       \E k2 \in 1..Len(b) : b[k2].ts = a[i].ts /\ Shell(a[i]) # Shell(b[k2])} }
+     ELSE IF (tw.mode = "full" /\ Len(a) # Len(b)) \/ (tw.mode # "full" /\ Len(b) < n + off) \/ off < 0
      THEN {<<cl \o "_len", tw.j, "", Len(b)>>}
      ELSE { <<cl \o "_candle", tw.j, "", i>> : i \in {i \in 1..n : Shell(a[i]) # Shell(b[off + i])} }
           \cup (IF Len(tw.names) = 0
@@ -421,7 +430,7 @@ WorkFindings(T, e, mid, post) ==
 \* --------------------------------------------------------------------------
 \* all findings of one step
 \* --------------------------------------------------------------------------
-CalcOps == {"append", "calculate", "recalculate"}
+CalcOps == {"append", "calculate", "recalculate", "reconf"}
 ReadOps == {"reads"}
 
 StepFindings(T, e, post) ==
@@ -432,7 +441,7 @@ StepFindings(T, e, post) ==
               \* with a lifespan, readings are only specified while the look-back they need
               \* has survived every trim (C15's precondition)
               rd  == T.mg[j].life < 0 \/ (ok15 /\ LookbackOK(T, e, post))
-              tg  == IF e.op = "append" THEN ra ELSE Targets(T, e)
+              tg  == IF e.op = "append" THEN ra ELSE IF e.op = "reconf" THEN {e.idx} ELSE Targets(T, e)
           \* an exception is a finding unless it is the one the specification itself raises for this
           \* input (InvalidCandleOrder on a stream that goes back in time)
           IN IF e.exc # "" THEN (IF ~mid.ok /\ mid.err = e.exc THEN {<<"ok", j, "expected_exc", 0>>}
